@@ -16,6 +16,6 @@ rm -rf "$S"; git -C /repo worktree prune; git -C /repo worktree add -f "$S" HEAD
 ( cd "$S" && SEED_REPO="$S" PYTHONPATH="$S" /venv/bin/python "$D/demo.py" >/tmp/seed-$NAME-patched.log 2>&1 ); PATCHED=$?
 BASE=$(python3 /verif/tools/baseline.py "$S" | head -1)
 echo "demo clean=$CLEAN patched=$PATCHED ; tests with patch: $BASE"
-( cd /verif && VERIF_REPO="$S" VERIF_WORKERS="${VERIF_WORKERS:-6}" ./check "$P" --tier quick >/tmp/seed-$NAME-check.log 2>&1 ); RC=$?
+( cd /verif && VERIF_REPO="$S" VERIF_WORKERS="${VERIF_WORKERS:-6}" VERIF_BUDGET_SCALE="${VERIF_BUDGET_SCALE:-3}" ./check "$P" --tier quick >/tmp/seed-$NAME-check.log 2>&1 ); RC=$?
 git -C /repo worktree remove --force "$S"
 echo "check $P exit=$RC : $(grep -c '^VIOLATION' /tmp/seed-$NAME-check.log) violation lines; $(tail -1 /tmp/seed-$NAME-check.log)"
